@@ -1,7 +1,7 @@
 import string
 from typing import Any, Union
 
-from flamapy.core.models.ast import ASTOperation, Node
+from flamapy.core.models.ast import ASTOperation, Node, LOGICAL_OPERATORS
 from flamapy.core.transformations import ModelToText
 from flamapy.metamodels.fm_metamodel.models import (
     Constraint,
@@ -72,7 +72,7 @@ class UVLWriter(ModelToText):
             + "\n"
             + tab_count * "\t"
             + feature_type
-            + safename(feature.name)
+            + declared_name(feature.name)
             + " "
             + feature_cardinality
             + self.read_attributes(feature)
@@ -91,7 +91,7 @@ class UVLWriter(ModelToText):
         if feature.is_abstract:
             attributes.append("abstract")
         for attribute in feature.get_attributes():
-            attribute_str = safename(attribute.name)
+            attribute_str = declared_name(attribute.name)
             if attribute.default_value is not None:
                 attribute_str += f" {cls.serialize_value(attribute.default_value)}"
             attributes.append(attribute_str)
@@ -111,8 +111,8 @@ class UVLWriter(ModelToText):
                 return f'[{items} ]'
             return f'[{items}]'
         if isinstance(value, dict):
-            items = [safename(str(key)) if item is None
-                     else f"{safename(str(key))} {cls.serialize_value(item)}"
+            items = [declared_name(str(key)) if item is None
+                     else f"{declared_name(str(key))} {cls.serialize_value(item)}"
                      for key, item in value.items()]
             return f'{{{", ".join(items)}}}'
         return str(value)
@@ -156,11 +156,15 @@ class UVLWriter(ModelToText):
         return UVLWriter._serialize_node(ctc.ast.root)
 
     @staticmethod
-    def _serialize_node(node: Node) -> str:
+    def _serialize_node(node: Node, literals: bool = False) -> str:
         if node.is_term():
-            return safename(node.data) if isinstance(node.data, str) else str(node.data)
+            if not isinstance(node.data, str):
+                return str(node.data)
+            return safename(node.data) if literals else declared_name(node.data)
         operator = UVL_OPERATORS[node.data]
-        operands = [UVLWriter._serialize_operand(operand)
+        # only comparisons and arithmetic take string literals: elsewhere 'x' is a name
+        literal_operands = node.data not in LOGICAL_OPERATORS and not node.is_aggregate_op()
+        operands = [UVLWriter._serialize_operand(operand, literal_operands)
                     for operand in (node.left, node.right) if operand is not None]
         if node.is_unary_op():
             return f"{operator} {operands[0]}"
@@ -169,9 +173,9 @@ class UVLWriter(ModelToText):
         return f"{operands[0]} {operator} {operands[1]}"
 
     @staticmethod
-    def _serialize_operand(node: Node) -> str:
+    def _serialize_operand(node: Node, literals: bool = False) -> str:
         """Binary operations used as operands are parenthesised."""
-        text = UVLWriter._serialize_node(node)
+        text = UVLWriter._serialize_node(node, literals)
         return f"({text})" if node.is_op() and node.is_binary_op() else text
 
 
@@ -188,9 +192,18 @@ UVL_KEYWORDS = {'include', 'namespace', 'imports', 'as', 'features', 'cardinalit
                 'true', 'false'}
 
 
+def declared_name(name: str) -> str:
+    """A feature, attribute or key name where it is declared: never a string literal."""
+    return '.'.join(quoted_if_needed(simple_name) for simple_name in name.split('.'))
+
+
 def safe_simple_name(name: str) -> str:
     if name.startswith("'") and name.endswith("'"):
-        return name
+        return name  # a string literal of a constraint
+    return quoted_if_needed(name)
+
+
+def quoted_if_needed(name: str) -> str:
     needs_quotes = (
         any(char not in safecharacters() for char in name)
         or name[:1] not in string.ascii_letters  # a bare identifier starts with a letter
